@@ -418,6 +418,14 @@ where
     /// Free node indices stack
     free_nodes: Mutex<Vec<u32>>,
     
+    /// Serialises the operations that change the map (get moves the entry to the head of
+    /// the recency list, so it is one of them). `hash_map`, `nodes` and `free_nodes` are
+    /// locked one after the other inside an operation; without this lock another thread
+    /// can recycle a node between two of those steps (get/remove then act on a node that
+    /// belongs to a different key) and put()/evict_lru() take `hash_map` and `nodes` in
+    /// opposite order (deadlock).
+    op_lock: Mutex<()>,
+    
     /// Statistics for performance monitoring
     stats: Arc<LruMapStatistics>,
     
@@ -478,6 +486,7 @@ where
             nodes: RwLock::new(nodes),
             lru_list: LruList::new(),
             free_nodes: Mutex::new(free_nodes),
+            op_lock: Mutex::new(()),
             stats: Arc::new(LruMapStatistics::new()),
             eviction_callback: NoOpEvictionCallback,
             memory_pool,
@@ -536,6 +545,7 @@ where
             nodes: RwLock::new(nodes),
             lru_list: LruList::new(),
             free_nodes: Mutex::new(free_nodes),
+            op_lock: Mutex::new(()),
             stats: Arc::new(LruMapStatistics::new()),
             eviction_callback: callback,
             memory_pool,
@@ -544,6 +554,7 @@ where
     
     /// Get a value by key, updating its position in the LRU list
     pub fn get(&self, key: &K) -> Option<V> {
+        let _op = self.op_lock.lock().unwrap_or_else(|e| e.into_inner());
         let hash_map = self.hash_map.read().ok()?;
         let node_idx = match hash_map.get(key) {
             Some(&idx) => idx,
@@ -575,6 +586,7 @@ where
     
     /// Insert or update a key-value pair
     pub fn put(&self, key: K, value: V) -> Result<Option<V>> {
+        let _op = self.op_lock.lock().unwrap_or_else(|e| e.into_inner());
         let hash = self.hash_key(&key);
         
         // Check if key already exists
@@ -627,6 +639,7 @@ where
     
     /// Remove a key-value pair
     pub fn remove(&self, key: &K) -> Option<V> {
+        let _op = self.op_lock.lock().unwrap_or_else(|e| e.into_inner());
         let mut hash_map = self.hash_map.write().ok()?;
         let node_idx = hash_map.remove(key)?;
         drop(hash_map);
@@ -680,6 +693,7 @@ where
     
     /// Clear all entries
     pub fn clear(&self) -> Result<()> {
+        let _op = self.op_lock.lock().unwrap_or_else(|e| e.into_inner());
         let mut hash_map = self.hash_map.write().map_err(|_| ZiporaError::out_of_memory(0))?;
         let mut nodes = self.nodes.write().map_err(|_| ZiporaError::out_of_memory(0))?;
         let mut free_nodes = self.free_nodes.lock().map_err(|_| ZiporaError::out_of_memory(0))?;
